@@ -25,7 +25,7 @@ from ..clock import CLOCK
 from ..drive import HarnessError
 from ..ref import agent as ragent
 from ..ref import usm
-from ..vloop import ControlledSender, VLoop
+from ..vloop import ControlledSender, VLoop, owned
 
 PROPERTY = "C14"
 
@@ -61,7 +61,25 @@ OPS = {
     "pybulkwalkget": ("pybulkwalkget", [(1, 3, 2, 1), (1, 3, 2, 2)], 2),
     "pyget": ("pyget", (1, 3, 4, 1, 0)),
     "pytable": ("pytable", (1, 3, 2)),
+    # near-duplicates: concurrent requests that agree in their OIDs and differ
+    # in something else (split into scalars / repeaters, repetition count,
+    # value to set, order of the OIDs) - each must get its own answer
+    "bulkgetS": ("bulkget", [(1, 3, 1, 1, 0)], [(1, 3, 2, 1)], 2),
+    "bulkgetR": ("bulkget", [], [(1, 3, 1, 1, 0), (1, 3, 2, 1)], 2),
+    "bulkgetS5": ("bulkget", [(1, 3, 1, 1, 0)], [(1, 3, 2, 1)], 5),
+    "setW1b": ("set", (1, 3, 7, 1, 0), ("str", b"other1")),
+    "bulkwalk5": ("bulkwalk", [(1, 3, 2, 1), (1, 3, 2, 2)], 5),
+    "multigetR": ("multiget", [(1, 3, 4, 1, 0), (1, 3, 1, 1, 0)]),
+    "pymultiget": ("pymultiget", [(1, 3, 1, 1, 0), (1, 3, 4, 1, 0)]),
+    "pymultigetR": ("pymultiget", [(1, 3, 4, 1, 0), (1, 3, 1, 1, 0)]),
+    "pygetA": ("pyget", (1, 3, 1, 1, 0)),
 }
+NEAR_DUPLICATES = [
+    ("bulkgetS", "bulkgetR"), ("bulkgetR", "bulkgetS"), ("bulkgetS5", "bulkgetS"), ("bulkgetS", "bulkgetS5"), ("bulkgetS", "bulkgetS"),
+    ("setW1", "setW1b"), ("bulkwalk5", "bulkwalk"), ("bulkwalk", "bulkwalk5"), ("multiget", "multigetR"),
+    ("pymultiget", "pymultigetR"), ("pymultigetR", "pymultiget"), ("pymultiget", "pymultiget"), ("pyget", "pyget"), ("pyget", "pygetA"),
+    ("getA", "getA"), ("getA", "getnext"),
+]
 
 ENVS = ("v2c", "v3", "v3x2")
 
@@ -75,6 +93,22 @@ def task_sets(tier):
         for b in singles[i:]:
             out.append(("v2c", [a, b], None))
     out.append(("v2c", ["getW1", "setW1"], None))
+    for a, b in NEAR_DUPLICATES:
+        out.append(("v2c", [a, b], None))
+    for a, b in NEAR_DUPLICATES[:3] + NEAR_DUPLICATES[5:7] + NEAR_DUPLICATES[9:10]:
+        out.append(("v3", [a, b], None))
+    out.append(("v2c", ["bulkgetS", "bulkgetR", "bulkgetS5"], 2))
+    # an operation whose caller gives up while the others go on
+    out.append(("v2c", ["getA!", "getB"], None))
+    out.append(("v2c", ["walk!", "getA"], None))
+    out.append(("v2c", ["getA!", "getA"], None))
+    out.append(("v3", ["getA!", "getB"], None))
+    out.append(("v3", ["getB", "getA!"], None))
+    out.append(("v3", ["getA!", "getA"], None))
+    out.append(("v3", ["walk!", "getA"], None))
+    out.append(("v3+reboot", ["getA!", "getB"], None))
+    out.append(("v3", ["getA!", "getB", "setW1"], 2))
+    out.append(("v3x2", ["getA!", "getB"], None))
     out.append(("v2c", ["pywalkget"], None))
     out.append(("v2c", ["pywalkget", "pyget"], None))
     out.append(("v2c", ["pybulkwalkget", "pytable"], None))
@@ -145,6 +179,8 @@ async def run_op_async(client, op):
         dotted = lambda o: ".".join(map(str, o))  # noqa
         if name == "pyget":
             return ("py", repr(await w.get(dotted(a[0]))))
+        if name == "pymultiget":
+            return ("py", repr(await w.multiget([dotted(o) for o in a[0]])))
         if name == "pytable":
             return ("py", repr(sorted(sorted(r.items()) for r in await w.table(dotted(a[0])))))
         out = []
@@ -158,6 +194,12 @@ async def run_op_async(client, op):
         return tuple(norm_value(v) for v in await client.multiget([OID(o) for o in a[0]]))
     if name == "getnext":
         return _vb(await client.getnext(OID(a[0])))
+    if name == "bulkget":
+        res = await client.bulkget([OID(o) for o in a[0]], [OID(o) for o in a[1]], a[2])
+        return (
+            ("scalars", tuple((norm_oid(k), norm_value(v)) for k, v in res.scalars.items())),
+            ("listing", tuple((norm_oid(k), norm_value(v)) for k, v in res.listing.items())),
+        )
     if name == "set":
         return norm_value(await client.set(OID(a[0]), to_lib_value(*a[1])))
     if name == "multiset":
@@ -225,7 +267,7 @@ def make_run(env, names, tick=1.0, mode="tick1"):
         results = {}
         with loop.running():
             if reboot:
-                warm = loop.create_task(run_op_async(clients[0], OPS["getA"]), name="warm")
+                warm = loop.create_task(owned("warm", run_op_async(clients[0], OPS["getA"])), name="warm")
                 loop.run_ready()
                 while sender.pending:
                     sender.answer(0, agent.handle(sender.pending[0]["packet"]))
@@ -237,10 +279,11 @@ def make_run(env, names, tick=1.0, mode="tick1"):
             tasks = []
             for i, n in enumerate(names):
                 c = clients[i % len(clients)]
-                tasks.append(loop.create_task(run_op_async(c, OPS[n]), name="t%d" % i))
+                tasks.append(loop.create_task(owned("t%d" % i, run_op_async(c, OPS[n.rstrip("!")])), name="t%d" % i))
             loop.run_ready()
             last = None
             steps = 0
+            cancelled = []
             while sender.pending:
                 steps += 1
                 if steps > 200:
@@ -249,7 +292,22 @@ def make_run(env, names, tick=1.0, mode="tick1"):
                 max_pending = max(max_pending, len(sender.pending))
                 pend = sorted(range(len(sender.pending)), key=lambda j: (sender.pending[j]["task"] != last, sender.pending[j]["task"], sender.pending[j]["seq"]))
                 has_last = last is not None and sender.pending[pend[0]]["task"] == last
-                k = ctx.choose(len(pend), "serve", free=not has_last) if len(pend) > 1 else 0
+                # the caller of an operation marked "!" may give up on it (a
+                # deadline of its own) while one of its requests is unanswered
+                # - at most one cancellation per execution
+                owners = {sender.pending[j]["task"] for j in pend}
+                may_cancel = [] if cancelled else [i for i, n in enumerate(names) if n.endswith("!") and "t%d" % i in owners and not tasks[i].done()]
+                nopt = len(pend) + len(may_cancel)
+                k = ctx.choose(nopt, "serve", free=not has_last) if nopt > 1 else 0
+                if k >= len(pend):
+                    i = may_cancel[k - len(pend)]
+                    cancelled.append(i)
+                    tasks[i].cancel()
+                    loop.run_ready()
+                    # requests nobody waits for any more are never answered
+                    sender.pending = [e for e in sender.pending if not e["future"].done()]
+                    order.append(-1 - i)
+                    continue
                 j = pend[k]
                 entry = sender.pending[j]
                 if entry["kwargs"] != {"timeout": 6, "retries": 10}:
@@ -301,7 +359,7 @@ def make_run(env, names, tick=1.0, mode="tick1"):
                 if "not-in-time-window" in refused:
                     refused.remove("not-in-time-window")
         obs = (tuple(sorted(results.items())), stuck, tuple(logged), tuple(refused))
-        info = {"order": order, "max_pending": max_pending, "agent_log": full_log, "bad_kwargs": bad_kwargs}
+        info = {"order": order, "max_pending": max_pending, "agent_log": full_log, "bad_kwargs": bad_kwargs, "cancelled": cancelled}
         run.last_info = info
         return obs, []
 
@@ -315,6 +373,7 @@ def solo_results(env, names):
     for i, n in enumerate(names):
         # same client slot (user) as in the concurrent run
         run = make_run(env, [None] * i + [n]) if False else None
+        n = n.rstrip("!")
         r = make_run(env, [n])
         if env in ("v3x2", "v3x2e") and i % 2 == 1:
             r = make_run_for_user(n, "bob")
@@ -335,7 +394,7 @@ def make_run_for_user(name, user):
         agent = ragent.V3Agent(DB, [USERS["alice"][0], USERS["bob"][0]], clock=lambda: CLOCK.now)
         client = Client("192.0.2.1", lib_creds(user), sender=sender)
         with loop.running():
-            t = loop.create_task(run_op_async(client, OPS[name]), name="t0")
+            t = loop.create_task(owned("t0", run_op_async(client, OPS[name])), name="t0")
             loop.run_ready()
             while sender.pending:
                 e = sender.pending[0]
@@ -350,6 +409,7 @@ def make_run_for_user(name, user):
 
 
 def exchanges_of(env, name, user=None):
+    name = name.rstrip("!")
     r = make_run(env if env not in ("v3x2", "v3x2e") else "v3", [name])
     explore.run_once(r, ())
     return len(r.last_info["order"])
@@ -390,8 +450,8 @@ def run_shard(params, acc):
 
         if obs[1]:
             bad("tasks-stuck-without-pending-request")
-        if obs[2]:
-            bad("loop-exception-handler-called", logged=list(obs[2])[:3])
+        # (what the loop's exception handler was told - obs[2] - is part of
+        # the observation, not of the verdict: the statement is about results)
         if obs[3]:
             bad("agent-refused-a-request", verdicts=list(obs[3])[:5])
         if li["bad_kwargs"]:
@@ -399,6 +459,8 @@ def run_shard(params, acc):
         for i, n in enumerate(names):
             got = results.get(i)
             want = solo[i]
+            if i in li["cancelled"]:
+                want = ("!cancelled", None)
             if racing and n == "getW1":
                 # old or new value according to the agent's delivery order
                 set_idx = names.index("setW1")
@@ -426,7 +488,7 @@ def run_shard(params, acc):
     acc.count(evaluations=0, states=stats.nodes + stats.executions, transitions=stats.transitions)
     acc.maxi("max_depth", stats.max_depth)
     acc.bump("double_runs", stats.double_runs)
-    if bound is None and env == "v2c" and "missing" not in names and not racing and not found:
+    if bound is None and env == "v2c" and "missing" not in names and not racing and not found and not any(n.endswith("!") for n in names):
         # (skipped when violations were found: a task that fails early
         # legitimately changes the shape of the schedule tree)
         ns = [exchanges_of(env, n) for n in names]
@@ -436,8 +498,16 @@ def run_shard(params, acc):
         for n in ns:
             multinomial //= factorial(n)
         if multinomial != stats.executions:
-            raise HarnessError("explorer ran %d schedules of %r, multinomial says %d" % (stats.executions, names, multinomial))
-        acc.bump("multinomial_cross_checks", 1)
+            # the closed form assumes that every operation sends the requests
+            # it sends when running alone (a client that lets identical
+            # concurrent requests share one exchange sends fewer): count the
+            # schedules once more by plain recursion instead
+            recount = explore.count_leaves(run, root=root)
+            if recount != stats.executions:
+                raise HarnessError("explorer ran %d schedules of %r, multinomial says %d, independent recursion %d" % (stats.executions, names, multinomial, recount))
+            acc.bump("recursive_count_cross_checks", 1)
+        else:
+            acc.bump("multinomial_cross_checks", 1)
     acc.extra.setdefault("schedules_per_set", {})["%s:%s:bound=%s:first=%s" % (env, "+".join(names), bound, params.get("first"))] = stats.executions
     for choices, v in found:
         k = v["kind"]
@@ -457,11 +527,15 @@ def replay(case):
     ctx, obs, _ = explore.run_once(run, case["choices"])
     results = dict(obs[0])
     out = []
-    if obs[1] or obs[2] or obs[3]:
-        out.append({"kind": "stuck-logged-or-refused", "detail": {"stuck": obs[1], "logged": obs[2], "verdicts": obs[3]}})
+    if obs[1] or obs[3]:
+        out.append({"kind": "stuck-or-refused", "detail": {"stuck": obs[1], "logged": obs[2], "verdicts": obs[3]}})
     racing = "getW1" in names and "setW1" in names
     for i, n in enumerate(names):
         if racing and n == "getW1":
+            continue
+        if i in run.last_info["cancelled"]:
+            if results.get(i, ("",))[0] != "!cancelled":
+                out.append({"kind": "result-differs-from-solo-run", "detail": {"task": i, "op": n, "got": results.get(i), "expected": "cancelled"}})
             continue
         if results.get(i) != solo[i]:
             out.append({"kind": "result-differs-from-solo-run", "detail": {"task": i, "op": n, "got": results.get(i), "expected": solo[i]}})
@@ -472,7 +546,7 @@ def meta(tier):
     sets = task_sets(tier)
     return {
         "level": "model_checking",
-        "rule": "schedule exploration per task set: %d sets of 2..%d concurrent operations on a shared client (v2c, v3 authPriv) or on two clients with different users (v3x2); at each point the explorer picks which pending request the reference agent answers next; preemption bound per set None (= all interleavings; for v2c sets cross-checked against the multinomial count) or as listed; the virtual clock advances 1 s per read so that request ids of concurrent requests differ; non-trivial = at least two requests pending at the same time"
+        "rule": "schedule exploration per task set: %d sets of 2..%d concurrent operations on a shared client (v2c, v3 authPriv) or on two clients with different users (v3x2); at each point the explorer picks which pending request the reference agent answers next (or, once per execution, that the caller of an operation marked '!' cancels it); preemption bound per set None (= all interleavings; for v2c sets cross-checked against the multinomial count) or as listed; the virtual clock advances 1 s per read so that request ids of concurrent requests differ; non-trivial = at least two requests pending at the same time"
         % (len(sets), max(len(s[1]) for s in sets)),
         "exhaustive": True,
         "bounds": {"sets": [[e, n, b] for e, n, b in sets]},
